@@ -68,6 +68,9 @@ type zzC12Env struct {
 }
 
 var zzEnv *zzC12Env
+
+// zzShardWriter is set by harnesses that look at backend shard files (C05).
+var zzShardWriter func(e *zzC12Env, output string)
 var zzEnvs []*zzC12Env
 
 // zzC12EnvOf finds the environment a template belongs to (VerifC12_FileFault runs two).
@@ -107,6 +110,11 @@ func zzC12WriteOutput(c *template.Config, data interface{}, output string) error
 		if e.faultCfg {
 			return errors.New("cannot write config")
 		}
+		if zzShardWriter != nil && strings.HasPrefix(zzC12Base(output), "haproxy5-backend") {
+			zzShardWriter(e, output)
+			e.writes++
+			return nil
+		}
 		var lines []string
 		for id, b := range e.inst.config.Backends().Items() {
 			lines = append(lines, "backend "+id)
@@ -129,7 +137,9 @@ func zzC12Write(c *template.Config, data interface{}) error {
 	return zzC12WriteOutput(c, data, "")
 }
 
-func zzC12Setup() *zzC12Env {
+func zzC12Setup() *zzC12Env { return zzC12SetupWith(InstanceOptions{}) }
+
+func zzC12SetupWith(opts InstanceOptions) *zzC12Env {
 	e := &zzC12Env{cfgDir: "/cfg", mapsDir: "/maps", reload: &zzC12Reload{}, written: map[string][]string{}}
 	if !nd.Symbolic() {
 		var err error
@@ -141,10 +151,9 @@ func zzC12Setup() *zzC12Env {
 		}
 		os.MkdirAll(e.cfgDir+"/lua", 0o755)
 	}
-	e.inst = CreateInstance(zzC12Logger{}, InstanceOptions{
-		HAProxyCfgDir: e.cfgDir, HAProxyMapsDir: e.mapsDir, RootFSPrefix: "/repo/rootfs",
-		Metrics: zzC12Metrics{}, ReloadQueue: e.reload, SortEndpointsBy: "endpoint",
-	}).(*instance)
+	opts.HAProxyCfgDir, opts.HAProxyMapsDir, opts.RootFSPrefix = e.cfgDir, e.mapsDir, "/repo/rootfs"
+	opts.Metrics, opts.ReloadQueue, opts.SortEndpointsBy = zzC12Metrics{}, e.reload, "endpoint"
+	e.inst = CreateInstance(zzC12Logger{}, opts).(*instance)
 	e.inst.options.fake = true
 	if !nd.Symbolic() {
 		if err := e.inst.ParseTemplates(); err != nil {
